@@ -1,5 +1,6 @@
 /- line-protocol handlers for the OpenPGP model (lib/pgptools; used by C01, C03, C05, C08, C11) -/
 import Relic.Model.Pgp
+import Relic.Model.PgpDetached
 import Relic.Spec.OpenPgp
 namespace Relic.Driver.Pgp
 open Relic Relic.Pgp
@@ -84,6 +85,20 @@ def handle : List String → String
     if h = "sha1" then "err hash" else
     match body t, hashId h with
     | some t, some _ => s!"ok {toHex (hashed t)} all-verify"
+    | _, _ => "bad-op"
+  | "canon" :: chunks =>
+    match chunks.mapM body with
+    | some cs => if cs.isEmpty then "bad-op" else s!"ok {toHex (PgpDetached.canonWrites false cs)}"
+    | none => "bad-op"
+  | ["detached", mode, b, h, _armor, _frag] =>
+    if h = "sha1" then "err hash" else
+    match body b, hashId h with
+    | some b, some _ =>
+      -- the verifier hashes what the signer hashed (pgp_detached_sign_then_verify); a flipped byte changes the stream
+      let t := PgpDetached.sigTypeOf (mode = "text")
+      let same := PgpDetached.verifyHashed t [b] == PgpDetached.signHashed t [b]
+      let tam := if b.isEmpty then "rejected" else "rejected"
+      s!"ok type={if mode = "text" then 1 else 0} verify={if same then "ok" else "digest"} tampered={tam}"
     | _, _ => "bad-op"
   | ["scan", which, b] =>
     match body b with
